@@ -624,6 +624,8 @@ def load_seeds():
         (1, "NINFO", '"foo" "bar baz"'),
         (1, "TKEY", "gss-tsig. 1594203795 1594206664 3 0 KEYKEYKEYKEYKEYKEYKEYKEYKEYKEYKEYKEY OTHEROTHEROTHEROTHEROTHEROTHEROT"),
         (3, "A", "vaxa.example. 0123"),
+        (255, "TSIG", "hmac-sha256. 1594203795 300 4 bWFjbQ== 1234 NOERROR 0"),
+        (255, "TSIG", "hmac-sha256. 1594203795 300 4 bWFjbQ== 1234 BADTIME 6 AAAAAAAB"),
         (1, "RESINFO", "qnamemin exterr=15,16,17 infourl=https://resolver.example.com/guide"),
         (1, "WALLET", "EXAMPLE 01234567890abcdef"),
         (1, "DSYNC", "CDS NOTIFY 5359 cds-scanner.example.net."),
@@ -1100,7 +1102,7 @@ SWEEP_BYTES = [0x00, 0x01, 0x3F, 0x40, 0x7F, 0x80, 0xC0, 0xFF]
 
 
 def sweep_probes(s, what):
-    """deterministic probes: what in {"text", "wire", "msg"}"""
+    """deterministic probes: what in {"text", "stretch", "wire", "msg"}"""
     import struct
 
     if what == "text":
@@ -1152,6 +1154,84 @@ def sweep_probes(s, what):
                     t2 = "".join(toks[:i] + [rep] + toks[i + 1:])
                     yield "zone_text", ["$ORIGIN example.\n$TTL 300\n" + t2 + "\n", 1, 1, 0]
             yield "read_rrsets", [line, 4, 1, 1]
+    elif what == "stretch":
+        # boundary family for variable-length fields: every hex / base64 / base32hex / quoted / plain
+        # / key=value token of every type's specimen is stretched so that the field it encodes is
+        # exactly 254, 255, 256, 257 octets long (one-octet length prefixes and 255 bounds) and, for
+        # the encoded forms, 65535 / 65536 octets (two-octet prefixes); each text goes through
+        # dns.rdata.from_text, a one-record zone (zone.from_text, read_rrsets) and a message text.
+        # Accepted values are rendered (to_wire / to_text / to_digestable / hash / to_generic).
+        import base64 as _b64
+
+        b32hex = bytes.maketrans(b"ABCDEFGHIJKLMNOPQRSTUVWXYZ234567", b"0123456789ABCDEFGHIJKLMNOPQRSTUV")
+
+        def enc(kind, n):
+            if kind == "hex":
+                return "ab" * n
+            if kind == "b64":
+                return _b64.b64encode(b"k" * n).decode()
+            if kind == "b32":
+                return _b64.b32encode(b"h" * n).translate(b32hex).decode().rstrip("=").lower()
+            if kind == "quoted":
+                return '"' + "q" * n + '"'
+            if kind == "num":
+                return "1." + "0" * (n - 2)
+            if kind == "qnum":
+                return '"1.' + "0" * (n - 2) + '"'
+            return "p" * n
+
+        def classify(tok):
+            if len(tok) >= 2 and tok[0] == '"' and tok[-1] == '"':
+                return ["quoted", "qnum"] if re.fullmatch(r'"-?[0-9.]+"', tok) else ["quoted"]
+            kinds = []
+            if re.fullmatch(r"-?[0-9]*\.[0-9]+", tok):
+                kinds.append("num")
+            if re.fullmatch(r"[0-9a-fA-F]+", tok) and len(tok) % 2 == 0:
+                kinds.append("hex")
+            if re.fullmatch(r"[0-9a-vA-V]+", tok) and len(tok) >= 8:
+                kinds.append("b32")
+            if re.fullmatch(r"[A-Za-z0-9+/]+=*", tok) and len(tok) >= 4:
+                kinds.append("b64")
+            if re.fullmatch(r"[A-Za-z][A-Za-z0-9-]*", tok) or tok == "-":
+                kinds.append("plain")
+            return kinds
+
+        small_l = (254, 255, 256, 257)
+        big_l = (65535, 65536)
+        zhead = "$ORIGIN example.\n$TTL 300\n@ IN SOA ns h 1 2 3 4 5\n@ NS ns\n"
+        for rdclass, rdtype, text, _ in s.rdatas:
+            if not text:
+                continue
+            tn = dns.rdatatype.to_text(rdtype)
+            cn = dns.rdataclass.to_text(rdclass) if rdclass in (1, 3) else "IN"
+            toks = _tok_re.findall(text)
+            idx = [i for i, t in enumerate(toks) if t.strip()]
+            variants = []
+            for i in idx:
+                tok = toks[i]
+                pre = ""
+                body = tok
+                if "=" in tok and not tok.startswith('"'):
+                    pre, body = tok.split("=", 1)
+                    pre += "="
+                kinds = classify(body) or (["plain", "quoted", "b64", "hex"] if pre else [])
+                for kind in kinds:
+                    lens = small_l + (big_l if kind in ("hex", "b64") else ())
+                    for n in lens:
+                        rep = pre + enc(kind, n)
+                        variants.append("".join(toks[:i] + [rep] + toks[i + 1:]))
+                        # the field may be written in several chunks: also as the only chunk
+                        j = i + 1
+                        while j < len(toks) and (not toks[j].strip() or (kind in classify(toks[j]) and not pre)):
+                            j += 1
+                        if j > i + 1:
+                            variants.append("".join(toks[:i] + [rep]))
+            for t2 in variants:
+                yield "rdata_text", [rdclass, rdtype, t2, 1, 0]
+                if len(t2) < 3000 or rdtype in (50, 51, 55, 43, 48, 46, 249, 37):
+                    yield "zone_text", [zhead + "x 300 " + cn + " " + tn + " " + t2 + "\n", 1, 1, 0]
+                    yield "read_rrsets", ["x.example. 300 " + tn + " " + t2, 0, 1, 0]
+                    yield "msg_text", ["id 1\nopcode QUERY\nflags QR\n;QUESTION\nx.example. IN " + tn + "\n;ANSWER\nx.example. 300 " + cn + " " + tn + " " + t2 + "\n", 1, 1, 0]
     elif what == "wire":
         # chains of compression pointers: every arrangement of 2 and 3 pointer / label cells
         cells = [b"\xc0\x00", b"\xc0\x02", b"\xc0\x04", b"\xc0\x06", b"\x01a", b"\x00\x00", b"\xc1\x00"]
